@@ -142,10 +142,9 @@ class ListCorrector(Corrector):
             self.i = 0
 
         def __call__(self, w):
-            if self.data[self.i] == w:
-                return w
-            self.i += 1
-            pos = bisect_left(self.data, w, self.i)
+            # Lookups arrive in increasing order, so the search can start at
+            # the previous answer (which may itself be the answer again)
+            pos = self.i = bisect_left(self.data, w, self.i)
             if pos < len(self.data):
                 return self.data[pos]
             else:
